@@ -34,14 +34,26 @@ def check_proofs(pid, tier):
     mod = f"Cacache.Props.{pid}"
     path = os.path.join(C.LEAN, "Cacache", "Props", f"{pid}.lean")
     res = {"obligations": 0, "discharged": 0, "theorems": [], "axioms": {}, "partial": [], "problems": [],
-           "checker_cmd": f"cd lean && lake build {mod} && lake env lean <#print axioms of every theorem>"
+           "checker_cmd": f"cd lean && lake build {mod} [{mod}x] && lake env lean <#print axioms of every theorem>"
                           + (" && lake env leanchecker " + mod if tier == "thorough" else ""),
            "trusted_base": ["Lean 4.33.0 kernel", "hand-written Lean model of cacache (tied to /repo by the correspondence run below)"]}
     if not os.path.exists(path):
         res["problems"].append(f"no theorem module for {pid}")
         return res
-    src = strip_comments(open(path).read())
-    names = re.findall(r"^theorem\s+([A-Za-z0-9_.']+)", src, flags=re.M)
+    # the property's theorem module, plus an optional extension module `Props/<id>x.lean` (theorems that
+    # rest on lemma files which themselves import `Props/<id>.lean`, e.g. the refinement of listings)
+    mods, qualified = [mod], []
+    xpath = os.path.join(C.LEAN, "Cacache", "Props", f"{pid}x.lean")
+    srcs = [(mod, path)] + ([(mod + "x", xpath)] if os.path.exists(xpath) else [])
+    mods = [m for m, _ in srcs]
+    names = []
+    for m, pth in srcs:
+        src_ = strip_comments(open(pth).read())
+        ns = re.search(r"^namespace\s+(\S+)", src_, flags=re.M)
+        prefix = (ns.group(1) + ".") if ns else ""
+        for n_ in re.findall(r"^theorem\s+([A-Za-z0-9_.']+)", src_, flags=re.M):
+            names.append(n_)
+            qualified.append(prefix + n_)
     res["theorems"] = names
     res["obligations"] = len(names)
     res["partial"] = [n for n in names if n.endswith("_partial")]
@@ -49,21 +61,19 @@ def check_proofs(pid, tier):
         res["discharged"] = len(names)
         res["trusted_base"].append("frozen run: proofs not rebuilt (seeded-change evaluation)")
         return res
-    rc, out, _ = C.build_lean([mod])
+    rc, out, _ = C.build_lean(mods)
     if rc != 0:
         bad = re.findall(r"error: (.*)", out)
         res["problems"].append(f"theorem module {mod} no longer builds: {bad[:3]}")
         return res
     # forbidden constructs anywhere in the library
-    for f in lean_files((mod, "Driver")):
+    for f in lean_files(tuple(mods) + ("Driver",)):
         s = strip_comments(open(f).read())
         m = FORBIDDEN.search(s)
         if m:
             res["problems"].append(f"forbidden construct {m.group(0).strip()!r} in {os.path.relpath(f, C.LEAN)}")
     # axioms
-    ns = re.search(r"^namespace\s+(\S+)", src, flags=re.M)
-    prefix = (ns.group(1) + ".") if ns else ""
-    audit = f"import {mod}\n" + "".join(f"#print axioms {prefix}{n}\n" for n in names)
+    audit = "".join(f"import {m}\n" for m in mods) + "".join(f"#print axioms {q}\n" for q in qualified)
     tmp = os.path.join(C.scratch_root(), f"audit_{pid}.lean")
     open(tmp, "w").write(audit)
     rc, out = C.run(["lake", "env", "lean", tmp], cwd=C.LEAN, timeout=900)
@@ -87,7 +97,7 @@ def check_proofs(pid, tier):
     used = sorted(set(a for v in seen.values() for a in v))
     res["trusted_base"].append("axioms used: " + (", ".join(used) if used else "none"))
     if tier == "thorough":
-        rc, out = C.run(["lake", "env", "leanchecker", mod], cwd=C.LEAN, timeout=1800)
+        rc, out = C.run(["lake", "env", "leanchecker"] + mods, cwd=C.LEAN, timeout=1800)
         if rc != 0:
             res["problems"].append(f"leanchecker rejected {mod}: {out[-300:]}")
         else:
